@@ -72,20 +72,22 @@ snapprop("C09", "proof", "Texel.Properties.C09",
     "Trusted: Lean kernel; hand-written model tied by differential testing; quantisation below 1e-10 (FromGeomOrd truncates toward zero) is outside the model: the property is stated on the quantised integers.")
 
 snapprop("C08", "proof", "Texel.Properties.C08",
-    ["Texel.C08.processLevels_keys", "Texel.C08.C08_keys", "Texel.C08.processLevels_entry", "Texel.C08.C08_alone_eq_together"],
+    ["Texel.C08.processLevels_keys", "Texel.C08.C08_keys", "Texel.C08.processLevels_entry", "Texel.C08.C08_alone_eq_together", "Texel.C08.C08_depth_independent", "Texel.C08.C08_independent"],
     ["snap", FUNC],
     "Lean 4 theorems on the per-level functional model (result keys are requested; a level's entry is what processLevel computes for it alone) + alone-vs-together oracle on round grids",
     "Theorems for every polygon, configuration and grid: keys are requested levels, and with the index fixed the entry for a level does not depend on the other requested levels. That the index depth "
-    "(which follows the deepest requested id) does not influence a shallower level on a round grid is decided by the oracle: every requested id is also snapped alone on synthetic dyadic grids and NetherlandsRDNewQuad and compared.",
-    "Trusted: Lean kernel; the per-level structure of the model is tied to the code's per-level maps by the snap correspondence; depth-independence on round grids is validated, not proved.")
+    "(which follows the deepest requested id) does not influence a shallower level on a round grid is proved too (C08_depth_independent, C08_independent: two grids of the same extent, SameExtent, give the same entry for every common level) "
+    "and in addition decided per case by the oracle: every requested id is also snapped alone on synthetic dyadic grids and NetherlandsRDNewQuad and compared.",
+    "Trusted: Lean kernel; the per-level structure of the model is tied to the code's per-level maps by the snap correspondence; on extents that do not divide evenly (float seam) depth independence does not hold exactly and is not claimed.")
 
 snapprop("C05", "proof", "Texel.Properties.C05",
-    ["Texel.C05.C05_no_empty_list", "Texel.C05.C05_no_keep_no_appended", "Texel.C05.C05_keep_extends"],
+    ["Texel.C05.C05_no_empty_list", "Texel.C05.C05_no_keep_no_appended", "Texel.C05.C05_keep_extends", "Texel.C05.C05_shape", "Texel.C05.C05_at_least_three"],
     ["snap", FUNC],
     "Lean 4 theorems on the functional model (absent rather than empty; keep-points-and-lines only appends single-ring polygons) + exact ring-structure oracle on every implementation answer",
     "Theorems for all polygons (valid or not): a collapsed tile matrix is absent, never an empty list; with keep-points-and-lines every tile matrix present without it carries the same polygons followed by single-ring polygons. "
-    "Ring-level clauses (shell first, orientation, no closing duplicate, no vertex twice, >= 3 vertices) are decided by the oracle on every implementation answer, valid and arbitrary polygons, synthetic and real grids (the F4 repair lives there), each case with and without keep.",
-    "Trusted: Lean kernel; cleanupNewRing/dedupeInnersOuters/matchInnersToPolygons are black boxes in these proofs; ring-level clauses are validated by oracle + correspondence, not proved.")
+    "Without the option every returned ring has at least three vertices, and in general a level is such polygons followed by single rings of at most two vertices (C05_shape, C05_at_least_three, through the functional cleanupNewRing/splitRing/dedupe/match). "
+    "The other ring-level clauses (shell first, orientation, no closing duplicate, no vertex twice) are decided by the oracle on every implementation answer, valid and arbitrary polygons, synthetic and real grids (the F4 repair lives there), each case with and without keep.",
+    "Trusted: Lean kernel; the functional forms cleanupNewRingF/dedupeF/matchF are compared with the transcribed do-notation reference on every snap/split operation (streams split, model-functional-vs-reference); orientation and no-vertex-twice are validated by oracle + correspondence, not proved.")
 
 snapprop("C07", "proof", "Texel.Properties.C07",
     ["Texel.C07.levelAcc_indep", "Texel.C07.C07_flag", "Texel.C07.reversePolys_involutive", "Texel.C07.C07_flag_presence"],
@@ -96,10 +98,10 @@ snapprop("C07", "proof", "Texel.Properties.C07",
     "Trusted: Lean kernel; the model is a function by construction, so determinism of the code itself rests on the correspondence and the repetition runs; ring-reversal invariance is validated, not proved.")
 
 snapprop("C03", "proof", "Texel.Properties.C03",
-    ["Texel.C03.C03_index_in_range", "Texel.C03.C03_centre_in_pixel", "Texel.C03.C03_centre_exact", "Texel.C03.C03_centre_deepest", "Texel.C03.C03_round", "Texel.C03.C03_deviation", "Texel.C03.C03_pixel_size"],
+    ["Texel.C03.C03_output_is_pixel_of_level", "Texel.C03.C03_index_in_range", "Texel.C03.C03_centre_in_pixel", "Texel.C03.C03_centre_exact", "Texel.C03.C03_centre_deepest", "Texel.C03.C03_round", "Texel.C03.C03_deviation", "Texel.C03.C03_pixel_size"],
     ["snap", "quad"],
     "Lean 4 theorems on the integer centre formula (in its pixel, exact middle, equals the ideal centre on round extents, within the reported deviation otherwise) + bit-exact centre canonicalisation of every returned float",
-    "Theorems for every grid/level/pixel: the coordinate handed out is inside its pixel, exactly its middle above the deepest level, equal to minX+(k+1/2)*XSpan/2^l when the extent divides evenly, and otherwise left of the ideal centre by less than XSpan mod 2^depth "
+    "Theorems: every vertex of everything snapPolygonF returns for level l stands for a pixel of that level (indices below 2^l); for every grid/level/pixel the coordinate handed out is inside its pixel, exactly its middle above the deepest level, equal to minX+(k+1/2)*XSpan/2^l when the extent divides evenly, and otherwise left of the ideal centre by less than XSpan mod 2^depth "
     "(the deviation the tool reports). The harness checks on every accepted built-in set x ids that each returned float is bit-for-bit ToGeomOrd of such an integer, that level = id+log2(tileWidth)+4 and pixel = cellSize/16, and the distance to the ideal centre against DeviationStats.",
     "Trusted: Lean kernel; float conversion (ToGeomOrd) and tms20's float extent are outside the model; the cellSize constants in the JSON documents are rounded (checked to 1e-6 relative).")
 
@@ -122,18 +124,18 @@ snapprop("C01", "other", "Texel.Properties.C01",
     extra_trusted=["SnapRoundingNoCross and OutputEdgesAreRoutedRuns are not proved"])
 
 snapprop("C04", "other", "Texel.Properties.C04",
-    ["Texel.C04.C04_routed_vertex_is_input_pixel", "Texel.C04.C04_address_contains_vertex", "Texel.C04.C04_dedup_vertices"],
+    ["Texel.C04.C04_output_vertex_is_input_pixel", "Texel.C04.C04_routed_vertex_is_input_pixel", "Texel.C04.C04_address_contains_vertex", "Texel.C04.C04_dedup_vertices"],
     ["snap", FUNC],
-    "partial Lean 4 proof (routed vertices are input-vertex pixels; spike removal invents no vertex) + exact half-pixel-distance and coverage oracles on every implementation answer",
-    "Partial proof + verified-oracle exploration: (a) is proved for the routed chains and for spike removal (not yet through splitRing/assembly); (b) half-pixel edge distance and (c) coverage beyond one pixel are decided per case by exact rational oracles "
+    "partial Lean 4 proof (first clause proved at full strength on the model: every output vertex is the pixel of an input vertex, through joining, spike removal, ring splitting, cancellation, hole matching, reversal and keep) + exact half-pixel-distance and coverage oracles on every implementation answer",
+    "Partial proof + verified-oracle exploration: (a) is proved for everything snapPolygonF returns (C04_output_vertex_is_input_pixel); (b) half-pixel edge distance and (c) coverage beyond one pixel are decided per case by exact rational oracles "
     "(5 points per output edge; up to 150 locations per case). Known finding F5.",
     "The deformation/winding-parity argument behind (b),(c) is not machine-checked.",
     extra_trusted=["edge distance and coverage are explored with exact oracles, not proved"])
 
 snapprop("C18", "other", "Texel.Properties.C18",
-    ["Texel.C18.C18_boundary_exists", "Texel.C18.C18_dedup_subset"],
+    ["Texel.C18.C18_boundary_exists", "Texel.C18.C18_no_vertex_invented", "Texel.C18.C18_dedup_subset"],
     ["snap", FUNC],
-    "partial Lean 4 proof (routed boundary exists; spike removal only removes) + exact routed-run / hole-containment / signed-area oracle on cases whose model chains visit each centre at most twice",
+    "partial Lean 4 proof (routed boundary exists; no returned vertex is invented: each is a routed pixel; spike removal only removes) + exact routed-run / hole-containment / signed-area oracle on cases whose model chains visit each centre at most twice",
     "Partial proof + verified-oracle exploration: the routed boundary (the model's chains, routing proved exact) is computed for every case; for (polygon, level) pairs with max visits <= 2 the three conclusions are checked exactly on the implementation's output. "
     "The cancellation argument of kmpDeduplicate under max visits <= 2 is not proved.",
     "kmp_removes_cancelling_pairs is open; the oracle decides each generated case.",
